@@ -4,7 +4,7 @@ set -e
 cd "$(dirname "$0")/.."
 export GOFLAGS=-mod=mod GOPROXY=off GOSUMDB=off GOTOOLCHAIN=local
 mkdir -p work evidence coq/theories/Gen
-if [ -d tools/gotocoq ]; then (cd tools/gotocoq && go run . -repo ${VERIF_REPO:-/repo} -out ../../coq/theories/Gen); fi
+for t in tools/gotocoq/*/main.go; do [ -f "$t" ] || continue; d=$(basename $(dirname $t)); (cd tools/gotocoq && GOWORK=off go run ./$d -repo ${VERIF_REPO:-/repo} -out ../../coq/theories/Gen) || echo "setup: translator $d failed"; done
 tools/gen_coqproject.sh
 (cd coq && coq_makefile -f _CoqProject -o Makefile && timeout 3000 make -k -j16) || echo "setup: coq build incomplete (checks report per property)"
 tools/prep_harness.sh || echo "setup: harness build incomplete (checks report per property)"
